@@ -19,9 +19,9 @@ def value(level, key):
     return [level, key]
 
 
-@m.memento_function(cluster="vfc", version="1")
-def part(level, specs):
-    sys.audit("vf.body", "part", level)
+def build(level, specs):
+    """The partition of one level; its parent comes from a memoized call, or - when the level below is marked
+    "unstored" - is built right here in memory and has never been serialized."""
     own = specs[level]
     data = {k: value(level, k) for k in own["keys"]}
     if own["kind"] == "disk":
@@ -31,5 +31,11 @@ def part(level, specs):
     else:
         p = InMemoryPartition(data)
     if level > 0:
-        p._merge_parent = part(level - 1, specs)
+        p._merge_parent = build(level - 1, specs) if specs[level - 1].get("unstored") else part(level - 1, specs)
     return p
+
+
+@m.memento_function(cluster="vfc", version="1")
+def part(level, specs):
+    sys.audit("vf.body", "part", level)
+    return build(level, specs)
